@@ -7,6 +7,7 @@ import (
 	"strings"
 
 	"github.com/koykov/dyntpl"
+	"github.com/koykov/inspector"
 )
 
 // regionRel is the property-level check of "everything rendered inside a <kind> region is escaped":
@@ -338,6 +339,68 @@ func callFormLetters(r *Run, letters []string) {
 			if got.Panic != "" || got.ErrStr() != want.ErrStr() || !bytes.Equal(got.Out, want.Out) {
 				r.Violate("call-form "+run+" "+call, "escape letters in front of the call form of a modifier do not escape the modifier's result",
 					map[string]any{"source": "{%" + run + "= " + call + " %}", "output": string(got.Out), "modifier_result": string(plain.Out), "letters_on_that_result": string(want.Out), "error": got.ErrStr()})
+			}
+		}
+	}
+}
+
+// escViaCtxVar: an escaped value kept in a template variable ({% ctx e = v|mod %}, also with an explicit count
+// {% ctx e = v|mod(n) %}) is the value the print tag {%= v|mod(n) %} prints, and stays that value while it is printed
+// later — after other prints, inside counter and range loops, next to other variables made the same way (a
+// relation on the real engine alone: the variable must own its bytes).
+func escViaCtxVar(r *Run, mods []string) {
+	vals := []string{`a'b"c</script>&`, "x y;{}\n\té", `<b>"q" & 'r'`, "\x01\x1f\\/"}
+	for _, mod := range mods {
+		for cnt := 0; cnt <= 3; cnt++ {
+			call := mod
+			if cnt > 0 {
+				call = fmt.Sprintf("%s(%d)", mod, cnt)
+			}
+			for vi, v := range vals {
+				w := vals[(vi+1)%len(vals)]
+				direct, err, pan := regTpl(`{%= v|`+call+` %}`, true)
+				directW, err2, pan2 := regTpl(`{%= w|`+call+` %}`, true)
+				if err != nil || pan != "" || err2 != nil || pan2 != "" {
+					r.Internal("escape via ctx variable: the print form does not parse: " + call)
+					return
+				}
+				mk := func() *dyntpl.Ctx {
+					c := dyntpl.NewCtx()
+					c.SetString("v", v)
+					c.SetString("w", w)
+					c.Set("lst", []string{"p", "q"}, inspector.StringsInspector{})
+					return c
+				}
+				ev, ew := renderSafe(direct, mk()), renderSafe(directW, mk())
+				if ev.Err != nil || ew.Err != nil || ev.Panic != "" || ew.Panic != "" {
+					r.Internal("escape via ctx variable: the print form fails: " + call)
+					return
+				}
+				E, W := string(ev.Out), string(ew.Out)
+				type shape struct{ src, want string }
+				shapes := []shape{
+					{`{% ctx e = v|` + call + ` %}[{%= e %}]`, "[" + E + "]"},
+					{`{% ctx e = v|` + call + ` %}{%= w %}[{%= e %}]{%= w|` + call + ` %}[{%= e %}]`, w + "[" + E + "]" + W + "[" + E + "]"},
+					{`{% ctx e = v|` + call + ` %}{% for i := 0; i < 2; i++ %}{%= w %}[{%= e %}]{% endfor %}`, w + "[" + E + "]" + w + "[" + E + "]"},
+					{`{% ctx e = v|` + call + ` %}{% for i := 0; i < 2; i++ %}{%= i %}{%= w|` + call + ` %}[{%= e %}]{% endfor %}`, "0" + W + "[" + E + "]1" + W + "[" + E + "]"},
+					{`{% ctx e = v|` + call + ` %}{% for _, x := range lst %}{%= x %}[{%= e %}]{% endfor %}`, "p[" + E + "]q[" + E + "]"},
+					{`{% ctx e = v|` + call + ` %}{% ctx f = w|` + call + ` %}[{%= e %}][{%= f %}][{%= e %}]`, "[" + E + "][" + W + "][" + E + "]"},
+					{`{% for i := 0; i < 2; i++ %}{% ctx e = v|` + call + ` %}{%= w %}[{%= e %}]{% endfor %}[{%= e %}]`, w + "[" + E + "]" + w + "[" + E + "][" + E + "]"},
+				}
+				for si, sh := range shapes {
+					key, err, pan := regTpl(sh.src, true)
+					var got rendered
+					if err == nil && pan == "" {
+						got = renderSafe(key, mk())
+					}
+					sig := fmt.Sprintf("escape-via-ctx-var mod=%s shape=%d in=%s", call, si, hx([]byte(v)))
+					r.Count(sig, E != v)
+					r.Dist["escape-via-ctx-var"]++
+					if err != nil || pan != "" || got.Err != nil || got.Panic != "" || string(got.Out) != sh.want {
+						r.Violate(sig, "an escaped value kept in a template variable is not printed as the print tag with the same modifier prints it",
+							map[string]any{"template": sh.src, "v": v, "w": w, "output": string(got.Out), "expected": sh.want, "print_form": `{%= v|` + call + ` %}`, "print_form_output": E, "error": got.ErrStr(), "parse_error": fmt.Sprint(err), "panic": got.Panic + pan})
+					}
+				}
 			}
 		}
 	}
